@@ -59,7 +59,7 @@ def shards(tier):
 def floors(tier):
     return {"fixtures": 2500, "fixtures_exhaustive_vectors": 600, "fixtures_last_valid_earlier_bad": 300,
             "subprocess_runs": 30 if tier == "quick" else 100, "stdin_fixtures": 40, "base_uri_fixtures": 40,
-            "validator_option_fixtures": 100, "mode:plain-custom": 500, "mode:plain-default": 300, "mode:pretty": 500,
+            "validator_option_fixtures": 100, "validator_vs_dollar_schema_fixtures": 150, "mode:plain-custom": 500, "mode:plain-default": 300, "mode:pretty": 500,
             "exit0": 100, "exit_nonzero": 1000, "validation_chunks_checked": 3000, "load_diagnostics_checked": 1500}
 
 
@@ -391,6 +391,19 @@ def run(ctx):
                 one(ctx, root, rng, n, "valid", vec, mode, validator_opt=rng.choice(
                     ["Draft3Validator", "Draft4Validator", "jsonschema.Draft6Validator", "jsonschema.validators.Draft7Validator"]),
                     subprocess_too=(i % 41 == 0))
+            elif r < 0.30:
+                # an explicit --validator wins over a $schema naming another draft (on schemas the two drafts read differently)
+                dv, ds = rng.sample(impl.DRAFTS, 2)
+                obj = rng.choice([
+                    {"properties": {"a": {"type": "integer"}}, "minimum": 1, "exclusiveMinimum": True},
+                    {"properties": {"a": {"const": "check"}, "b": {"type": "string"}}, "required": ["p"]},
+                    {"properties": {"a": {"type": "integer"}, "p": {"required": True}}},
+                    {"properties": {"a": {"type": "integer"}}, "exclusiveMinimum": 0},
+                    {"properties": {"a": {"type": "integer"}, "b": {"type": "string"}, "c": {"maxLength": 1}}, "required": ["p", "q"]},
+                ])
+                ctx.count("validator_vs_dollar_schema_fixtures")
+                one(ctx, root, rng, n, "valid", vec, mode, validator_opt="Draft%dValidator" % dv, draft_kw=impl.META_ID[ds],
+                    schema_obj=obj, subprocess_too=(i % 43 == 0))
             elif r < 0.35:
                 d = rng.choice(impl.DRAFTS)
                 one(ctx, root, rng, n, "valid", vec, mode, draft_kw=impl.META_ID[d],
